@@ -61,8 +61,13 @@ def run(ctx):
         ctx.cov["exhaustive"] = {"histories": e["histories"], "length": 3, "alphabet": len(e["alphabet"]),
                                  "with_lookups": True}
         for g in ebad[:3]:
-            ctx.violation({"kind": "exhaustive-history-digest-with-lookups", "first_operation": e["alphabet"][g],
-                           "universe": e["strs"], "alphabet": e["alphabet"]})
+            v = {"kind": "exhaustive-history-digest-with-lookups", "first_operation": e["alphabet"][g],
+                 "universe": e["strs"], "alphabet": e["alphabet"]}
+            try:
+                v["failing_history"] = c01.exhaustive_locate(ctx, e, g, 3, True)
+            except Exception as ex:
+                v["failing_history"] = "search failed: %s" % ex
+            ctx.violation(v)
 
 
 def search(ctx, broken):
